@@ -555,7 +555,10 @@ func (w *world) treeOfPackage(p string) (t tree, ok bool) {
 	}
 	t = tree{}
 	for _, f := range zr.File {
-		name := strings.TrimSuffix(f.Name, "/")
+		name := filepath.Clean(f.Name)
+		if name == "." { // an entry for the root itself ("./": written when the source was spelt with a trailing separator)
+			continue
+		}
 		if strings.HasSuffix(f.Name, "/") {
 			t[name] = "dir"
 			continue
